@@ -152,6 +152,33 @@ BUILT = {
              "TLC, the source printer, harness projection.",
         technique="TLA+ reference interpreter (Lang) + TLC bounded exploration of statement histories with replay of every "
                   "transition + TLC trace validation of random programs"),
+    "C09": dict(
+        cat="model_checking", design="DESIGN.md §4 C09",
+        text="TLC exhaustively explores all histories of <=3 (quick) / <=4 (thorough) dictionary operations, all short "
+             "memoize call sequences and all short key lists through set/dict/unique/frequencies/count_distinct/"
+             "group_all over a key pool with several members per == class, with OneEntryPerClass, LenIsCardinality and "
+             "LookupTotalOnClass as invariants. Every transition is re-executed in the real interpreter and the "
+             "post-state, len/keys/values/items and five read paths for every pool key are compared. A seeded driver "
+             "runs 40-operation histories over the property's key space (levels, representations, nesting in "
+             "lists/vectors/dict keys); Trace_Dict.tla keeps its own dictionary, re-executes each operation and "
+             "compares after every step. Stored keys compare up to KeyEq, entries as multisets.",
+        note="Stored values are integers/null. Which representative of a class is stored is unspecified. The structural "
+             "number equality is checked against NumTower!NumEq on all pool pairs.",
+        technique="TLA+ spec (Dict.tla) + TLC bounded model checking with per-transition replay + TLC trace validation "
+                  "of recorded histories"),
+    "C13": dict(
+        cat="model_checking", design="DESIGN.md §4 C13",
+        text="SeqLib.tla transcribes the one-line definitions of about 60 sequence functions with a kind-preservation "
+             "table. TLC checks the spec's own laws (sort ordered, permutation and stable; unique idempotent; "
+             "flatten o group = id; window, prefix and suffix counts; combinatorial counts) and enumerates every input "
+             "of length 0..3/4 over a small alphabet x 7 input kinds x every function x numeric parameters "
+             "{0,1,2,len,len+1} x a named predicate/key/combiner family. Every case is evaluated in the real "
+             "interpreter and compared with the acceptable results, taking all key orders for dictionaries. "
+             "Trace_SeqLib validates seeded random cases of length 0..8 with repeats and mixed element types.",
+        note="Elements are integers 1..3 and the strings a, b (plus space and newline for text functions). Behaviour the "
+             "documentation does not determine is marked unspec and accepted. drop with a predicate on streams is "
+             "excluded (hang, C14). Known finding: partition returns lists for string/vector/bytes input.",
+        technique="TLA+ executable reference (SeqLib.tla) + TLC enumeration with replay + TLC trace validation"),
 }
 PENDING = "check not built yet in this round (planned, see DESIGN.md section 4 and 9)"
 ALL = ["C%02d" % i for i in range(1, 18)]
